@@ -17,6 +17,8 @@ pgm::PGMIndex<U, 4, 2> *pgm_idx;
 pgm::CompressedPGMIndex<U, 4, 2> *comp_idx;
 pgm::BucketingPGMIndex<U, 4, 16, 32> *buck_idx;
 pgm::BucketingPGMIndex<U, 4, 100, 0> *buck2_idx;
+pgm::PGMIndex<U, 2, 40> *pgm_bin_idx;               // EpsilonRecursive above the linear-scan threshold: binary-search routing
+pgm::CompressedPGMIndex<U, 2, 128> *comp_bin_idx;
 pgm::EliasFanoPGMIndex<U, 4> *ef_idx;
 pgm::MappedPGMIndex<U, 4, 2> *map_idx;
 using MD = pgm::MultidimensionalPGMIndex<2, uint32_t, 4>;
@@ -50,6 +52,8 @@ void zoo_build(const char *dir) {
     buck_idx = new pgm::BucketingPGMIndex<U, 4, 16, 32>(keys.begin(), keys.end());
     buck2_idx = new pgm::BucketingPGMIndex<U, 4, 100, 0>(keys.begin(), keys.end());
     ef_idx = new pgm::EliasFanoPGMIndex<U, 4>(keys.begin(), keys.end());
+    pgm_bin_idx = new pgm::PGMIndex<U, 2, 40>(keys.begin(), keys.end());
+    comp_bin_idx = new pgm::CompressedPGMIndex<U, 2, 128>(keys.begin(), keys.end());
     map_file = std::string(dir) + "/conc_mapped.bin";
     map_idx = new pgm::MappedPGMIndex<U, 4, 2>(keys.begin(), keys.end(), map_file);
     std::vector<std::tuple<uint32_t, uint32_t>> pts;
@@ -61,17 +65,17 @@ void zoo_build(const char *dir) {
     for (uint32_t i = 0; i < 23; ++i) dyn_idx->insert_or_assign(11 + 5 * i, 1000 + i);
     for (uint32_t i = 0; i < 9; ++i) dyn_idx->erase(10 + 6 * i);
 }
-void zoo_destroy() { delete pgm_idx; delete comp_idx; delete buck_idx; delete buck2_idx; delete ef_idx; delete map_idx; delete md_idx; delete dyn_idx; unlink(map_file.c_str()); }
+void zoo_destroy() { delete pgm_idx; delete comp_idx; delete buck_idx; delete buck2_idx; delete pgm_bin_idx; delete comp_bin_idx; delete ef_idx; delete map_idx; delete md_idx; delete dyn_idx; unlink(map_file.c_str()); }
 
-int zoo_classes() { return 8; }
-const char *zoo_class_name(int c) { static const char *n[] = {"PGMIndex<u64,4,2>", "CompressedPGMIndex<u64,4,2>", "BucketingPGMIndex<u64,4,16,32>", "EliasFanoPGMIndex<u64,4>", "MappedPGMIndex<u64,4,2>", "MultidimensionalPGMIndex<2,u32,4>", "DynamicPGMIndex<u32,u32>(2,1,2)", "BucketingPGMIndex<u64,4,100,0>"}; return n[c]; }
+int zoo_classes() { return 10; }
+const char *zoo_class_name(int c) { static const char *n[] = {"PGMIndex<u64,4,2>", "CompressedPGMIndex<u64,4,2>", "BucketingPGMIndex<u64,4,16,32>", "EliasFanoPGMIndex<u64,4>", "MappedPGMIndex<u64,4,2>", "MultidimensionalPGMIndex<2,u32,4>", "DynamicPGMIndex<u32,u32>(2,1,2)", "BucketingPGMIndex<u64,4,100,0>", "PGMIndex<u64,2,40>", "CompressedPGMIndex<u64,2,128>"}; return n[c]; }
 int zoo_queries(int) { return 8; }
 const char *zoo_query_name(int c, int q) {
     static const char *s[] = {"search(present)", "search(gap)", "search(last)", "search(0)", "search(above last)", "search(in dense cluster)", "search(far)", "search(gap in linear stretch)"};
     static const char *m[] = {"lower_bound(present)", "upper_bound(gap)", "count(long dup run)", "contains(0)", "lower_bound(above last)", "upper_bound(long dup run)", "contains(far)", "count(absent)"};
     static const char *d[] = {"contains(stored)", "contains(absent)", "range(small box)", "range(slab with 70 misses)", "range(full)", "range(empty box)", "contains(beyond)", "range(corner)"};
-    static const char *y[] = {"find(live)", "find(erased)", "count", "lower_bound(gap)", "lower_bound(below)", "range(20,90)", "full iteration", "begin+3"};
-    return (c <= 3 || c == 7) ? s[q] : c == 4 ? m[q] : c == 5 ? d[q] : y[q];
+    static const char *y[] = {"find(live)", "find(erased)", "count+size+empty", "lower_bound(gap)", "lower_bound(below)", "range(20,90)", "full iteration", "begin+3"};
+    return (c <= 3 || c >= 7) ? s[q] : c == 4 ? m[q] : c == 5 ? d[q] : y[q];
 }
 
 uint64_t zoo_run(int c, int q) {
@@ -81,6 +85,8 @@ uint64_t zoo_run(int c, int q) {
         case 2: return search_digest(*buck_idx, q);
         case 3: return search_digest(*ef_idx, q);
         case 7: return search_digest(*buck2_idx, q);
+        case 8: return search_digest(*pgm_bin_idx, q);
+        case 9: return search_digest(*comp_bin_idx, q);
         case 4: {
             Fnv f; U k = probe(q);
             switch (q) {
@@ -104,7 +110,7 @@ uint64_t zoo_run(int c, int q) {
             Fnv f; auto e = dyn_idx->end();
             auto put = [&](const Dyn::iterator &it) { if (it == e) f.add(~0ull); else { f.add(it->first); f.add(it->second); } };
             switch (q) {
-                case 0: put(dyn_idx->find(13)); break; case 1: put(dyn_idx->find(16)); break; case 2: f.add(dyn_idx->count(21)); f.add(dyn_idx->count(22)); break;
+                case 0: put(dyn_idx->find(13)); break; case 1: put(dyn_idx->find(16)); break; case 2: f.add(dyn_idx->count(21)); f.add(dyn_idx->count(22)); f.add(dyn_idx->size()); f.add(dyn_idx->empty()); break;
                 case 3: put(dyn_idx->lower_bound(17)); break; case 4: put(dyn_idx->lower_bound(0)); break;
                 case 5: for (auto &p : dyn_idx->range(20, 90)) { f.add(p.first); f.add(p.second); } break;
                 case 6: { size_t n = 0; for (auto it = dyn_idx->begin(); it != e && n < 10000; ++it, ++n) { f.add(it->first); f.add(it->second); } f.add(n); break; }
